@@ -162,7 +162,40 @@ def judge_worker_rec(spec, rec, well_behaved=True):
                 fails.append(("record-status", "the record %r says status %s, the wire says %d" % (a[3][0][:80], words[0], status)))
             if len(words) < 3 or words[1] != str(blen) or words[2] != str(blen):
                 fails.append(("record-bytes", "the record %r does not say %d body bytes" % (a[3][0][:80], blen)))
+    # no fabricated records: a request line cannot be logged more often than it occurs in what the client sent
+    # (a record made from the object of an EARLIER request of the connection is a record of a request that was never made)
+    stream = b"".join(x for x in spec.get("segs", []) if isinstance(x, bytes))
+    counts = {}
+    for win in wins:
+        if win["parse"][0] == "head" and any(e[0] == "app" for e in win["events"]):
+            eff = win.get("eff")
+            faulted = any(e[0] in ("sendall", "sendfile", "send100", "shutdown") and e[2] for e in win["events"])
+            if faulted or eff is None or not sane(eff):
+                continue        # an application call that did not complete: the property does not say how often it is logged
+        for a in (e for e in win["events"] if e[0] == "access"):
+            for ln in a[3]:
+                r = record_request_line(ln)
+                if r is not None:
+                    counts[r] = counts.get(r, 0) + 1
+    for r, n in counts.items():
+        have = stream.count(r.encode("latin-1") + b"\r\n")
+        if have and n > have:            # (request objects scripted into the parser's exceptions never were in the stream)
+            fails.append(("fabricated-record", "%d record(s) say %r, which the client sent %d time(s)" % (n, r, have)))
     return fails
+
+
+def record_request_line(line):
+    """the %(r)s field of a record in SB_FMT (status B b m "r" u "f"); None when it is absent or was escaped"""
+    i = line.find(' "')
+    if i < 0:
+        return None
+    j = line.find('" ', i + 2)
+    if j < 0:
+        return None
+    r = line[i + 2:j]
+    if "\\" in r or len(r.split(" ")) != 3:
+        return None
+    return r
 
 
 def producer_specs(rng, n):
